@@ -149,6 +149,15 @@ func H_C13(v *zzverif.T) {
 			t = w
 			dims[0], dims[1] = 4, 2
 		}
+		if i == 0 && v.Has("view") && v.CInt("view") == 2 && sup[i] == 2 {
+			// a lazily transposed tensor: stored as (3,2), handed over as its (2,3) transpose without Transpose()
+			lt := zzverif.NewTensor([]float32{1, 2, 3, 4, 5, 6}, []int{3, 2})
+			if terr := lt.(*tensor.Dense).T(); terr != nil {
+				panic(terr)
+			}
+			t = lt
+			dims[0], dims[1] = 2, 3
+		}
 		supplied[i] = t
 		in[names[i]] = t
 		if isInit[i] == 1 {
@@ -168,7 +177,17 @@ func H_C13(v *zzverif.T) {
 		in["zz_extra"] = v.ShapeTensor("zz_extra", []int{2})
 	}
 
+	// accepted or refused, the request's tensors are left as they were (shape, strides, layout, elements)
+	// (checked for the tensors that carry data: the view and the lazily transposed one; the others are shape-only)
+	snaps := make([]*zzverif.Snap, n)
+	withData := v.Has("view") && v.CInt("view") > 0
+	if withData && n > 0 && supplied[0] != nil {
+		snaps[0] = v.Snapshot(supplied[0])
+	}
 	out, rerr := m.Run(in)
+	if snaps[0] != nil {
+		v.AssertUnchanged("C13.request-tensors-left-as-they-were", supplied[0], snaps[0])
+	}
 	v.Assert("C13.error-iff-signature-violated", (rerr != nil) == expectErr)
 	if rerr != nil {
 		v.Assert("C13.no-outputs-on-error", out == nil)
